@@ -8,6 +8,7 @@ CONSTANTS
   WeekStarts <- SimWeekStarts
   Overrides <- MCOverrides
   Weekdays <- SimWeekdays
+  RangeSteps <- MCRangeSteps
 SPECIFICATION Spec
 CONSTRAINT Depth
 INVARIANT Emit
@@ -17,7 +18,9 @@ INVARIANT AddSubInverse
 INVARIANT ModifiersOk
 INVARIANT HistoryIndependent
 INVARIANT NavOk
+INVARIANT ElapsedConsistent
 PROPERTY ConvPreserves
 PROPERTY CopyStutters
 PROPERTY SetKeeps
+PROPERTY AddMovesBy
 CHECK_DEADLOCK FALSE
